@@ -529,4 +529,111 @@ pub(crate) mod verif_local {
         );
         (psess, sf)
     }
+
+    /// The wrapped emitter of a probe session: counts what it is handed, prints nothing.
+    struct CountingEmitter {
+        shown: Arc<std::sync::atomic::AtomicU32>,
+    }
+
+    impl Translate for CountingEmitter {
+        fn fluent_bundle(&self) -> Option<&rustc_errors::FluentBundle> {
+            None
+        }
+
+        fn fallback_fluent_bundle(&self) -> &rustc_errors::FluentBundle {
+            panic!("the counting emitter does not translate");
+        }
+    }
+
+    impl Emitter for CountingEmitter {
+        fn source_map(&self) -> Option<&SourceMap> {
+            None
+        }
+
+        fn emit_diagnostic(&mut self, _diag: DiagInner, _registry: &Registry) {
+            self.shown.fetch_add(1, Ordering::Release);
+        }
+    }
+
+    /// A parse session for driving the error bookkeeping from outside: the real `DiagCtxt`,
+    /// the real `SilentOnIgnoredFilesEmitter` and the flag they share with `ParseSess`.
+    pub(crate) struct ErrProbe {
+        pub(crate) psess: ParseSess,
+        shown: Option<Arc<std::sync::atomic::AtomicU32>>,
+    }
+
+    impl ErrProbe {
+        /// `counting`: the session is put together as `ParseSess::new` does, except that the
+        /// emitter wrapped by `SilentOnIgnoredFilesEmitter` counts instead of printing.
+        /// Otherwise the session is exactly `ParseSess::new(config)`.
+        pub(crate) fn new(config: &Config, counting: bool) -> Result<ErrProbe, ErrorKind> {
+            if !counting {
+                return Ok(ErrProbe {
+                    psess: ParseSess::new(config)?,
+                    shown: None,
+                });
+            }
+            let ignore_path_set = match IgnorePathSet::from_ignore_list(&config.ignore()) {
+                Ok(ignore_path_set) => Arc::new(ignore_path_set),
+                Err(e) => return Err(ErrorKind::InvalidGlobPattern(e)),
+            };
+            let source_map = Arc::new(SourceMap::new(FilePathMapping::empty()));
+            let can_reset_errors = Arc::new(AtomicBool::new(false));
+            let shown = Arc::new(std::sync::atomic::AtomicU32::new(0));
+            let dcx = DiagCtxt::new(Box::new(SilentOnIgnoredFilesEmitter {
+                has_non_ignorable_parser_errors: false,
+                source_map: Arc::clone(&source_map),
+                emitter: Box::new(CountingEmitter {
+                    shown: Arc::clone(&shown),
+                }),
+                ignore_path_set: IntoDynSyncSend(Arc::clone(&ignore_path_set)),
+                can_reset: Arc::clone(&can_reset_errors),
+            }));
+            let raw_psess = RawParseSess::with_dcx(dcx, source_map);
+            Ok(ErrProbe {
+                psess: ParseSess {
+                    raw_psess,
+                    ignore_path_set,
+                    can_reset_errors,
+                },
+                shown: Some(shown),
+            })
+        }
+
+        /// Registers `text` under `name` in the session's source map.
+        pub(crate) fn add_file(
+            &self,
+            name: rustc_span::FileName,
+            text: &str,
+        ) -> Arc<rustc_span::SourceFile> {
+            self.psess
+                .raw_psess
+                .source_map()
+                .new_source_file(name, text.to_owned())
+        }
+
+        /// Sends one diagnostic of the given level and primary span through the `DiagCtxt`.
+        pub(crate) fn emit(&self, level: DiagnosticLevel, span: Option<Span>) {
+            #[allow(rustc::untranslatable_diagnostic)] // no translation needed for empty string
+            let mut diag = DiagInner::new(level, "");
+            diag.messages.clear();
+            if let Some(span) = span {
+                diag.span = rustc_errors::MultiSpan::from_span(span);
+            }
+            self.psess.raw_psess.dcx().emit_diagnostic(diag);
+        }
+
+        pub(crate) fn reset(&self) {
+            self.psess.reset_errors();
+        }
+
+        /// `can_reset_errors()`, `has_errors()`, diagnostics handed to the wrapped emitter.
+        pub(crate) fn observe(&self) -> (bool, bool, Option<u32>) {
+            (
+                self.psess.can_reset_errors(),
+                self.psess.has_errors(),
+                self.shown.as_ref().map(|c| c.load(Ordering::Acquire)),
+            )
+        }
+    }
 }
